@@ -205,6 +205,51 @@ def check_divmod(case):
         raise Violation('MOD(%r,%r) = %r: (number - MOD)/divisor = %r is not an integer' % (a, b, r, float(k)), r, None)
 
 
+# ---------------------------------------------------------------- integers beyond the double-exact range: exact integer arithmetic
+
+@st.composite
+def bigint_case(draw):
+    x = draw(st.one_of(st.integers(2 ** 52, 2 ** 70), st.integers(-2 ** 70, -2 ** 52),
+                       st.sampled_from([2 ** 53 + 1, 2 ** 52 + 1, -(2 ** 53) - 1, 10 ** 17 + 1, 3 ** 40, 12345678901234567890, 4503599627370497, 10 ** 20 - 1, -(10 ** 18) - 5])))
+    return {'x': x, 'd': draw(st.integers(-6, 6)), 's': draw(st.sampled_from([1, 2, 3, 5, 7, 10, 1000, -1, -2, -7, 10 ** 6 + 1])),
+            'b': draw(st.one_of(st.sampled_from([1, 2, -2, 3, 10, -10, 7, 2 ** 40 + 1]), st.integers(-10 ** 6, 10 ** 6).filter(lambda v: v != 0))), 'var': draw(st.booleans())}
+
+
+def check_bigint(case):
+    x, d, s, b = case['x'], case['d'], case['s'], case['b']
+    env = Env(vars={'v_x': x, 'v_s': s, 'v_b': b})
+    X, S, B = ('v_x', 'v_s', 'v_b') if case['var'] else (num_lit(x), num_lit(s), num_lit(b))
+    Dg = str(d) if d >= 0 else '-%d' % -d
+    ax, sg = abs(x), (1 if x > 0 else -1)
+    u = 10 ** max(-d, 0)
+
+    def exact(f, want, what):
+        r = number_result(f.format(X=X, S=S, B=B, D=Dg), env)
+        if r != want or (isinstance(r, float) and int(r) != want):
+            raise Violation('%s = %r; %s is exactly %d' % (f.format(X=x, S=s, B=b, D=d), r, what, want), enc(r), want)
+    r = number_result('ROUND(%s,%s)' % (X, Dg), env)
+    if fr(r).denominator != 1 or int(fr(r)) % u != 0 or abs(fr(r) - x) * 2 > u:
+        raise Violation('ROUND(%d,%d) = %r is not a multiple of %d within half a unit of the number' % (x, d, r, u), enc(r), None)
+    exact('ROUNDUP({X},{D})', sg * -(-ax // u) * u, 'the multiple of %d at or next above in magnitude' % u)
+    exact('ROUNDDOWN({X},{D})', sg * (ax // u) * u, 'the multiple of %d at or next below in magnitude' % u)
+    exact('INT({X})', x, 'the floor')
+    exact('EVEN({X})', sg * (ax + ax % 2), 'the even integer at or beyond')
+    exact('ODD({X})', sg * (ax + 1 - ax % 2), 'the odd integer at or beyond')
+    exact('SIGN({X})', sg, 'the sign')
+    q = ax // abs(b)
+    exact('QUOTIENT({X},{B})', q if (x > 0) == (b > 0) else -q, 'the truncated quotient')
+    exact('MOD({X},{B})', x % b, 'the remainder with the sign of the divisor')
+    if not (x > 0 and s < 0):
+        m = abs(s)
+        if x >= 0 or s > 0:
+            up, down = -(-x // m) * m, (x // m) * m                 # toward +inf / toward -inf
+        else:
+            up, down = -(-(-ax) // m) * m, (-ax // m) * m           # x<0, s<0: CEILING away from zero, FLOOR toward zero
+            up, down = down, up
+        exact('CEILING({X},{S})', up, 'the adjacent multiple of %d on the CEILING side' % m)
+        exact('FLOOR({X},{S})', down, 'the adjacent multiple of %d on the FLOOR side' % m)
+
+
 def enum_fact(tier, shard, nshards):
     for n in range(-6, 171):
         if n % nshards == shard:
@@ -358,6 +403,14 @@ def check_roman(n):
     for p, g in zip(parts[6:], res[6:]):
         if isinstance(g, bool) or g != n:
             raise Violation('%s = %r' % (p, g), enc(g), n)
+    # the same number arriving as a float (a quotient, a host variable) or as text
+    form = n % 5
+    env = Env(vars={'v_f': float(n), 'v_t': str(n)})
+    parts2 = ['ROMAN(%d/1,%d)' % (n, form), 'ROMAN(v_f,%d)' % form, 'ROMAN(v_t,%d)' % form, 'ARABIC(ROMAN(%d*2/2))' % n]
+    t2 = outcome('{' + ','.join(parts2) + '}', env)
+    want2 = [res[1 + form]] * 3 + [n]
+    if t2['error'] is not None or t2['result'] != want2:
+        raise Violation('%s with v_f = %r, v_t = %r -> %r, expected %r (what the integer literal gives)' % (parts2, float(n), str(n), t2['error'] or t2['result'], want2), t2['error'] or enc(t2['result']), enc(want2))
     lens = [len(s) for s in res[1:6]]
     if any(lens[i] < lens[i + 1] for i in range(4)):
         raise Violation('ROMAN(%d, form) gets longer with a more concise form: %r' % (n, res[1:6]), res[1:6], None)
@@ -432,6 +485,11 @@ LAWS = [
         nontrivial=lambda c: c['a'] < 0 or c['b'] < 0 or isinstance(c['a'], float) or isinstance(c['b'], float),
         classes=lambda c: (('zero-divisor' if c['b'] == 0 else 'nonzero'),), required=('zero-divisor',),
         rule='(a, b): integers up to 2^53 and fractions of either sign, b = 0 included (error expected): QUOTIENT = truncated exact quotient, MOD sign/size/integrality'),
+    Law('big_integers', check_bigint, strategy=bigint_case(), quick=1000, thorough=60000, shards=(4, 16),
+        nontrivial=lambda c: c['d'] < 0 or abs(c['s']) > 1,
+        classes=lambda c: (('x<0' if c['x'] < 0 else 'x>0'), ('d<0' if c['d'] < 0 else 'd>=0')), required=('x<0', 'x>0', 'd<0', 'd>=0'),
+        rule='integers of magnitude 2^52..2^70 (which a double cannot hold) with digits -6..6, integer significances and divisors of either sign: ROUND within half a unit and an exact multiple, ROUNDUP, ROUNDDOWN, INT, EVEN, ODD, SIGN, QUOTIENT, MOD, CEILING and FLOOR '
+             'equal the exact integer the definition gives (a result that went through a double is off by up to 2^17 here)'),
     Law('fact', check_fact, enumerate=enum_fact, exhaustive=True, shards=(2, 2),
         rule='n = -6..170: FACT, FACTDOUBLE exact; negative -> error'),
     Law('hex_roundtrip', check_hex, strategy=st.fixed_dictionaries({'n': st.one_of(hex_in, hex_in, hex_out), 'var': st.booleans()}), quick=3000, thorough=200000,
@@ -452,6 +510,6 @@ LAWS = [
         rule='25 function/arity pairs x a 26-value boundary pool (incl. inf, nan, text, blank, logicals): each call returns a well-formed record within the step budget'),
 ]
 
-LEVEL_TEXT = 'Hypothesis exploration of the numeric specs against exact Fraction arithmetic with a stated tolerance; exhaustive over all 19995 ROMAN calls and FACT 0..170; radix round trips with an independent positional evaluator; termination decided by a deterministic line-event budget over a boundary pool.'
-LEVEL_NOTE = 'Trusted: fractions.Fraction arithmetic, the positional and Roman evaluators in hx/ref. Doubles beyond 2^52 after scaling are out of range of the spec and not generated.'
+LEVEL_TEXT = 'Hypothesis exploration of the numeric specs against exact Fraction arithmetic with a stated tolerance (no tolerance for integers of 2^52..2^70, which are compared exactly); exhaustive over all 19995 ROMAN calls and FACT 0..170; radix round trips with an independent positional evaluator; termination decided by a deterministic line-event budget over a boundary pool.'
+LEVEL_NOTE = 'Trusted: fractions.Fraction arithmetic, the positional and Roman evaluators in hx/ref. Floats (not integers) beyond 2^52 after scaling are out of range of the spec and not generated.'
 TECHNIQUE = 'Hypothesis property testing against exact rational specifications + exhaustive ROMAN/FACT sweeps + round trips + deterministic step budget'
